@@ -523,7 +523,13 @@ func e9CtlCase(seed uint64, n int) Case {
 		}
 		lat := []time.Duration{0, time.Millisecond, 300 * time.Millisecond, 5 * time.Second}[rng.Intn(4)]
 		late := rng.Bool()
-		srv.ListPlan = func(i int) kit.ListFault { return kit.ListFault{Latency: lat, SnapshotLate: late} }
+		emptyRV := rng.Chance(25)
+		if emptyRV {
+			late = true // without versions the list must be the latest state for the watch to continue from it
+		}
+		srv.ListPlan = func(i int) kit.ListFault {
+			return kit.ListFault{Latency: lat, SnapshotLate: late, EmptyRV: emptyRV}
+		}
 		fam := filterFamily()
 		F := fam[[]int{0, 2, 3, 5, 7}[rng.Intn(5)]]
 		g, err := newCtlRig(core, srv, time.Minute, F)
@@ -548,6 +554,9 @@ func e9CtlCase(seed uint64, n int) Case {
 		mdone := make(chan struct{})
 		go func() {
 			defer close(mdone)
+			if emptyRV {
+				return // (a list without version cannot be continued gap-free by a watch)
+			}
 			for i := 0; i < 8; i++ {
 				select {
 				case <-stop:
